@@ -745,6 +745,18 @@ func main() {
 
 	// 1. corpus, 2. exhaustive (base, extended), 3. random
 	jobs <- corpus
+	// 1'. long patterns: a defect placed behind byte 255, 4095, 65535 of an otherwise plain name (and
+	// the same names without a defect)
+	{
+		var long []string
+		for _, n := range []int{250, 254, 255, 256, 300, 4090, 4096, 65530, 65536} {
+			base := "releases/" + strings.Repeat("x", n)
+			for _, tail := range []string{"", "*+", "y[]", "y[b-a]", "y z", "y~", "y\\", "/", "y?+", "\ny"} {
+				long = append(long, base+tail)
+			}
+		}
+		jobs <- long
+	}
 	nEnum := 0
 	enumerate(baseAlphabet, *maxLen, func(b []string) { nEnum += len(b); jobs <- b })
 	nExt := 0
